@@ -147,6 +147,26 @@ pub fn run(ctx: &mut Ctx) {
     for (t, partials) in late_writers() {
         one(ctx, "late", &t, &partials, &Object::new());
     }
+    // a construct that mentions its subject again on the error path must not re-evaluate it: the
+    // subject's root may have been re-bound inside the branch that was running
+    {
+        let mut d = Object::new();
+        let mut x = Object::new();
+        x.insert("y".into(), liquid_core::model::Value::scalar(1i64));
+        d.insert("x".into(), liquid_core::model::Value::Object(x));
+        let rebind_assign = vec![text("b"), Node::Assign("x".into(), lit_i(5), vec![]), text("c"), out(var("x")), text("d")];
+        let rebind_capture = vec![text("b"), Node::Capture("x".into(), vec![text("q")]), text("c"), out(var("x")), text("d")];
+        for body in [rebind_assign, rebind_capture] {
+            let when = Node::Case { target: path("x", &["y"]), arms: vec![(vec![lit_i(1)], body.clone())], els: Some(vec![text("e")]), comma: true };
+            one(ctx, "late-subject", &[text("a"), when, text("f")], &[], &d);
+            let els = Node::Case { target: path("x", &["y"]), arms: vec![(vec![lit_i(2)], vec![text("w")])], els: Some(body.clone()), comma: true };
+            one(ctx, "late-subject", &[text("a"), els, text("f")], &[], &d);
+            let cond = Node::Cond { c: Cond::Bin(path("x", &["y"]), CmpOp::Eq, lit_i(1)), mode: true, thn: body.clone(), els: Some(vec![text("e")]), elsif: false };
+            one(ctx, "late-subject", &[text("a"), cond, text("f")], &[], &d);
+            let lp = Node::For { x: "i".into(), rng: RangeE::Arr(path("x", &["y"])), limit: None, offset: None, rev: false, body: body.clone(), els: Some(body.clone()) };
+            one(ctx, "late-subject", &[text("a"), lp, text("f")], &[], &d);
+        }
+    }
     // the error that carries a failure out of a construct may be decorated with run-time values (the
     // value a `case` switched on, the name of a partial): long values with multi-byte characters at
     // byte 128 / 256
